@@ -313,6 +313,30 @@ func runHistoryOracles(prop string, c *sx, hist string, st *oracleStats, add fun
 			sawErr = true
 		}
 	}
+	if prop == "C15" || prop == "C07" {
+		// the _id index survives every way of dropping indexes: by name, all at
+		// once (both part of the histories) and by key specification
+		for _, sess := range a.sessions {
+			// an open session transaction holds the write token
+			sess.AbortTransaction(context.Background())
+			sess.EndSession(context.Background())
+		}
+		final := engine.Catalog()
+		for h := range final.Namespaces {
+			if h == lungo.Oplog || h[0] == lungo.Local {
+				continue
+			}
+			st.Dist["drop-id-by-key-probes"]++
+			pctx, pcancel := context.WithTimeout(context.Background(), 2*time.Second)
+			_, err := client.Database(h[0]).Collection(h[1]).Indexes().DropOneWithKey(pctx, bson.D{{Key: "_id", Value: int32(1)}})
+			pcancel()
+			after := engine.Catalog().Namespaces[h]
+			if err == nil || after == nil || after.Indexes["_id_"] == nil {
+				add(prop+":drop-id-index-by-key", "DropOneWithKey({_id: 1}) removed the _id index of "+h.String()+" (or reported success)", hist, len(c.list)-2, nil)
+				break
+			}
+		}
+	}
 	if prop == "C08" {
 		// update events: the recorded updated/removed fields applied to the previous
 		// version of the document give the new version (up to field order)
@@ -899,13 +923,17 @@ func runBatchOracle(c *sx, hist string, st *oracleStats) (bool, *oracleFailure) 
 				// match by explicit _id; skip batches with generated ids
 				used := make([]bool, len(ids))
 				skip := false
+				seenIDs := map[string]bool{}
 				for _, d := range docs {
 					dd := decDoc(d)
 					id := bsonkit.Get(dd, "_id")
-					if id == bsonkit.Missing {
+					if id == bsonkit.Missing || seenIDs[enc(id)] {
+						// generated ids, or two items with the same explicit id (the reported
+						// id cannot be attributed to one of them): excluded
 						skip = true
 						break
 					}
+					seenIDs[enc(id)] = true
 					hit := false
 					for k, x := range ids {
 						if !used[k] && sxText(x) == enc(id) {
@@ -922,7 +950,7 @@ func runBatchOracle(c *sx, hist string, st *oracleStats) (bool, *oracleFailure) 
 					}
 				}
 				if skip {
-					st.Dist["excluded:unordered-generated-ids"]++
+					st.Dist["excluded:unordered-generated-or-repeated-ids"]++
 					b.call(call)
 					continue
 				}
